@@ -36,6 +36,7 @@ func checkC09(c *Check, a *Anchors) {
 	mergeSourcesReadOnly(c, a, "merge-sources-read-only")
 	c08IncludeBase(c, a) // a file is one vertex however often it is included; a base that depends on the including node depends on which include read it first
 	orderedRebuildSinglePass(c, a, "ordered-rebuild-single-pass")
+	copyReturnsFresh(c, a, "copy-returns-fresh")
 }
 
 func loadPhaseRoots(c *Check, a *Anchors) []*FuncBody {
@@ -265,6 +266,83 @@ func c09GoroutineAppends(c *Check, a *Anchors) {
 		})
 	}
 	c.Floor("completion-order-sorted", n, 1)
+	// second form: goroutines of a function append to a slice of that function (a captured accumulator, usually under a
+	// mutex): its element order is the completion order until it is sorted by a total order
+	m := 0
+	for _, lit := range c.P.Bodies() {
+		if lit.Lit == nil || !strings.HasPrefix(lit.Pkg.PkgPath, Mod) || bceSkipPkgs[lit.Pkg.PkgPath] {
+			continue
+		}
+		root := lit.Root()
+		rinfo := root.Info()
+		// the literal is spawned: operand of a go statement or argument of errgroup.Go
+		spawned := false
+		inspectDeep(root.Body, func(nd ast.Node) bool {
+			switch x := nd.(type) {
+			case *ast.GoStmt:
+				if fl, ok := ast.Unparen(x.Call.Fun).(*ast.FuncLit); ok && fl == lit.Lit {
+					spawned = true
+				}
+			case *ast.CallExpr:
+				if isFunc(callee(rinfo, x), "golang.org/x/sync/errgroup", "Group", "Go") && len(x.Args) == 1 {
+					if fl, ok := ast.Unparen(x.Args[0]).(*ast.FuncLit); ok && fl == lit.Lit {
+						spawned = true
+					}
+				}
+			}
+			return true
+		})
+		if !spawned {
+			continue
+		}
+		info := lit.Info()
+		inspectBody(lit.Body, func(nd ast.Node) bool {
+			as, ok := nd.(*ast.AssignStmt)
+			if !ok || len(as.Rhs) != 1 || len(as.Lhs) != 1 {
+				return true
+			}
+			call, ok := ast.Unparen(as.Rhs[0]).(*ast.CallExpr)
+			if !ok || !isBuiltin(info, call, "append") || len(call.Args) < 2 {
+				return true
+			}
+			v := varOf(info, as.Lhs[0])
+			if v == nil || v.IsField() || varOf(info, call.Args[0]) != v || (v.Pos() >= lit.Body.Pos() && v.Pos() <= lit.Body.End()) {
+				return true // not an accumulator captured from the enclosing function
+			}
+			m++
+			c.Fn(root)
+			// first use of the accumulator after the literal, in the enclosing function
+			var first *ast.CallExpr
+			sorted := false
+			inspectDeep(root.Body, func(mm ast.Node) bool {
+				cl, ok := mm.(*ast.CallExpr)
+				if !ok || cl.Pos() < lit.Lit.End() || first != nil || isBuiltin(rinfo, cl, "len") || isBuiltin(rinfo, cl, "cap") || isBuiltin(rinfo, cl, "make") {
+					return true
+				}
+				uses := false
+				for _, arg := range cl.Args {
+					if mentions(rinfo, arg, v) {
+						uses = true
+					}
+				}
+				if !uses {
+					return true
+				}
+				first = cl
+				fn, _ := callee(rinfo, cl).(*types.Func)
+				sorted = fn != nil && fn.Pkg() != nil && (fn.Pkg().Path() == "slices" || fn.Pkg().Path() == "sort") && (strings.HasPrefix(fn.Name(), "Sort") || fn.Name() == "Strings" || fn.Name() == "Slice" || fn.Name() == "SliceStable")
+				return true
+			})
+			how := "never handed on"
+			if first != nil {
+				how = "first handed to " + exprStr(first.Fun)
+			}
+			c.Decide(first == nil || sorted, "completion-order-sorted", "accumulator "+v.Name()+"@"+fnDisplay(root), as.Pos(), "the accumulator is sorted by a library sort before anything else sees it",
+				"goroutines of "+fnDisplay(root)+" append to its slice `"+v.Name()+"`, which is "+how+" without having been sorted by a total order first: its element order is the completion order of the goroutines (a configurable sorter may be the identity, e.g. --sort none)")
+			return true
+		})
+	}
+	c.Extra["captured_accumulators"] = m
 }
 
 // mergeSourcesReadOnly: merging reads the included side only.
